@@ -47,7 +47,7 @@ func BuildPlugins(binDir string) (*Plugins, error) {
 	os.MkdirAll(binDir, 0o755)
 	p := &Plugins{FastMarshal: filepath.Join(binDir, "protoc-gen-fastmarshal"), GoV2: filepath.Join(binDir, "protoc-gen-go"),
 		GoV1: filepath.Join(binDir, "protoc-gen-go-v1"), Gogo: filepath.Join(binDir, "protoc-gen-gogo")}
-	if err := goBuild("/repo", p.FastMarshal, "./cmd/protoc-gen-fastmarshal"); err != nil {
+	if err := goBuild(RepoDir, p.FastMarshal, "./cmd/protoc-gen-fastmarshal"); err != nil {
 		return nil, err
 	}
 	for _, x := range []struct{ out, pkg string }{{p.GoV2, "google.golang.org/protobuf/cmd/protoc-gen-go"},
@@ -55,7 +55,7 @@ func BuildPlugins(binDir string) (*Plugins, error) {
 		if _, err := os.Stat(x.out); err == nil {
 			continue
 		}
-		if err := goBuild("/repo", x.out, x.pkg); err != nil {
+		if err := goBuild(RepoDir, x.out, x.pkg); err != nil {
 			return nil, err
 		}
 	}
@@ -106,6 +106,14 @@ func depFiles(imports []string) []*descriptorpb.FileDescriptorProto {
 	}
 	return out
 }
+
+// RepoDir: the repository under test (VERIF_REPO overrides the default for scratch copies).
+var RepoDir = func() string {
+	if v := os.Getenv("VERIF_REPO"); v != "" {
+		return v
+	}
+	return "/repo"
+}()
 
 // Variant: one way of generating code for a schema.
 type Variant struct {
@@ -268,7 +276,7 @@ func WriteModule(root string, gs []*Generated, mainSrc string, harnessDir string
 	if err := os.MkdirAll(root, 0o755); err != nil {
 		return err
 	}
-	gomod := "module csverifgen\n\ngo 1.21\n\nrequire (\n\tgithub.com/CrowdStrike/csproto v0.0.0\n\tcsverif v0.0.0\n)\n\nreplace github.com/CrowdStrike/csproto => /repo\n\nreplace github.com/CrowdStrike/csproto/example => /repo/example\n\nreplace csverif => " + harnessDir + "\n"
+	gomod := "module csverifgen\n\ngo 1.21\n\nrequire (\n\tgithub.com/CrowdStrike/csproto v0.0.0\n\tcsverif v0.0.0\n)\n\nreplace github.com/CrowdStrike/csproto => " + RepoDir + "\n\nreplace github.com/CrowdStrike/csproto/example => " + RepoDir + "/example\n\nreplace csverif => " + harnessDir + "\n"
 	if err := os.WriteFile(filepath.Join(root, "go.mod"), []byte(gomod), 0o644); err != nil {
 		return err
 	}
